@@ -31,6 +31,11 @@ CHECKS = {
         "steps": [vc("c06", "derive", 60000, 3200000)],
         "assumptions": L1_ASSUME + ["darling_core::derive::* is what the proc-macro entry points in macro/src/lib.rs call after syn parsing; inputs are items syn accepts"],
     },
+    "C10": {
+        "packages": ["vchecks"],
+        "steps": [vc("c10", "random", 60000, 3200000)],
+        "assumptions": L1_ASSUME + ["the rule table (harness/vchecks/src/c10.rs, DESIGN.md Appendix C) is the reading of the property statement; options the statement does not define (bound, word = false, valued from_ident, attributes on pass-through magic fields, n-tuples under element-level derives) are not generated"],
+    },
     "C05": {
         "packages": ["vchecks"],
         "steps": [vc("c05", "histories", 40000, 1600000)],
